@@ -218,6 +218,6 @@ def _conds(tier, seed):
 
 
 FAMILIES = [
-    Family('db', body_db, ['kind', 'desc', 'nreq'], [('r0', 'int'), ('r1', 'int'), ('r2', 'int')], _conds, timeout=dict(quick=120, thorough=900), path_timeout=60,
+    Family('db', body_db, ['kind', 'desc', 'nreq'], [('r0', 'int'), ('r1', 'int'), ('r2', 'int')], _conds, timeout=dict(quick=300, thorough=900), path_timeout=60,
            desc='database descriptions x request sequences'),
 ]
